@@ -131,6 +131,7 @@ impl<F: Flavour> World<F> {
                         transpose: false,
                         closure: Closure::None,
                         mask: 0,
+                        query: false,
                     };
                     match F::search(&self.nodes[w], &spec, &mut |_, _, _| true) {
                         SearchOut::Node(Some(x)) => return x,
@@ -523,6 +524,10 @@ pub fn search_obs<F: Flavour>(root: &F::Node, spec: &SearchSpec) -> Obs {
         if seen.len() < ITER_CAP {
             seen.push((F::key(a), F::key(b), e.0));
         }
+        if spec.query {
+            let _ = F::out_degree(a);
+            let _ = F::in_degree(b);
+        }
         mask & (1 << (e.0 % 16)) == 0
     });
     Obs::Search {
@@ -545,7 +550,7 @@ pub fn parse_doc_edges(bytes: &[u8]) -> Option<Vec<(usize, usize, u64)>> {
         if e.len() != 3 {
             return None;
         }
-        out.push((e[0].as_u64()? as usize, e[1].as_u64()? as usize, e[2].as_u64()?));
+        out.push((crate::keys::kout(e[0].as_u64()? as usize), crate::keys::kout(e[1].as_u64()? as usize), e[2].as_u64()?));
     }
     Some(out)
 }
